@@ -91,10 +91,10 @@ fn gen_impl(container: &Container, ident: Ident, generics: Generics, data: &Data
                         }
                     } else {
                         let fields = fields.unnamed.iter().map(|field| &field.ty);
+                        // the type of the corresponding Rust tuple: a record with the fields
+                        // `_0`, `_1`, ... which is what the derived `Pushable` pushes
                         quote! {
-                            _gluon_base::types::Type::tuple(vec![#(
-                                <#fields as _gluon_api::VmType>::make_type(vm)
-                            ),*])
+                            <(#(#fields),*) as _gluon_api::VmType>::make_type(vm)
                         }
                     }
                 }
